@@ -9,7 +9,7 @@ def check(ctx):
     ctx.explanation = (
         "The C13 rules R1-R3 applied to the five adapter methods of fastrace-futures (config E) with the finishing "
         "table poll_next: Ready(None) only; poll_close: Ready(_); poll_ready/start_send/poll_flush: never; R4 drop order of the adapter's fields; R5 Span::set_local_parent opens a "
-        "scope on every path (C13-R5).")
+        "scope on every path (C13-R5); R6 a scope records iff any item of its token is sampled (C13-R7).")
     ctx.not_decided = "polling from other threads, restoration of context (C10), delivery (C01/C03)."
     facts = ctx.facts("E")
     found = 0
@@ -26,3 +26,5 @@ def check(ctx):
     adapters.rule_drop_order(ctx, facts, "R4", "fastrace_futures::InSpan")
     from .. import scopes
     scopes.rule_scope_always_opened(ctx, facts, "R5")
+    from .. import provrules
+    provrules.rule_scope_sampling(ctx, facts, "R6")
